@@ -836,7 +836,8 @@ def format_threshold(value, style):
     if style == "plus":
         return "+" + repr(value)
     if style == "g":
-        return "%.12g" % value
+        # only when twelve digits denote this very number (0.3 * 1.5 is 0.44999999999999996, not 0.45)
+        return "%.12g" % value if float("%.12g" % value) == value else repr(value)
     if style == "dot" and value == int(value) and abs(value) < 1e15:
         return "%d." % int(value)
     if style == "exp":
